@@ -362,4 +362,5 @@ class BlockEval:
                 self.assign(a, ast.Subscript(value=v, slice=ast.Constant(value=i), ctx=ast.Load()), s)
         elif isinstance(t, ast.Attribute):
             self.stores.append((U(t), v, s))
+            self.env[U(t)] = v          # keyed by its text: joined over branches like a name (never substituted into expressions)
         # subscript stores outside loops do not bind names
